@@ -349,7 +349,7 @@ def oracle(spec, K, a):
         return None if a[1] == 0 else [tdiv(sval(a[0], K), sval(a[1], K)) % Bk]
     if spec == "sdiv_r":        # documented precondition (assert in the code): b > 1
         sa, sb = sval(a[0], K), sval(a[1], K)
-        return None if sb <= 1 else [(sgn(sa) * (abs(sa) % sb)) % Bk]
+        return None if sb <= DIV_R_MIN[0] else [(sgn(sa) * (abs(sa) % sb)) % Bk]
     if spec == "sdiv_q_si":
         return None if a[1] == 0 else [tdiv(sval(a[0], K), a[1]) % Bk]
     if spec == "scmp":
@@ -446,7 +446,7 @@ def oracle_native(spec, K, a):
         return [(sx + c) % Bk, (sx - c) % Bk]
     if op == "sremo":                              # remainder of the truncated division (sign of the dividend), modulo |c|
         sc = sval(c % Bk, K)                       # the divisor is rint<K>(c): an unsigned c >= 2^63 is negative at K = 6
-        return None if abs(sc) <= 1 else [(sgn(sx) * (abs(sx) % abs(sc))) % Bk]
+        return None if sc <= DIV_R_MIN[0] else [(sgn(sx) * (abs(sx) % sc)) % Bk]     # b > 1: the documented precondition (rdiv.h assert)
     if op == "cmp":
         return [sgn(x - c), sgn(sx - c)]
     if op == "bit":
@@ -465,6 +465,25 @@ def oracle_native(spec, K, a):
 
 
 SRC_CONST = {}          # constants printed by the compiled harness (filled by main)
+
+
+def div_r_lower_bound():
+    """the documented domain of div_r(rint&, const rint&, const rint&) / operator% / %= : rdiv.h states it as `assert(b > N)` at the
+    top of both div_r overloads of rint.  Read on every run; divisors b <= N are outside the precondition and are NOT generated
+    nor checked.  Returns (N, how it was obtained)."""
+    try:
+        txt = open(os.path.join(vf.REPO, "src/kernel/recint/rdiv.h")).read()
+    except OSError:
+        return 1, "rdiv.h not readable: default b > 1"
+    found = []
+    for m in re.finditer(r"div_r\(\s*(?:rint<K>|T)&\s*r\s*,\s*const\s+rint<K>&\s*a\s*,[^)]*\)\s*\{\s*assert\(\s*b\s*>\s*(-?\d+)\s*\)", txt):
+        found.append(int(m.group(1)))
+    if not found:
+        return 1, "no `assert(b > N)` found at the top of div_r(rint) in rdiv.h: the restriction b > 1 of the last known source is kept"
+    return max(max(found), 1), "assert(b > %s) in %d div_r(rint) overload(s) of rdiv.h" % (max(found), len(found))
+
+
+DIV_R_MIN = [1]         # divisors of the rint remainder forms must exceed this (filled by main from the source)
 # the call forms run (and cross-checked against each other) inside one case of harness/c06_native.C / c06_conv.C
 NAT_FORMS = {
     "addf": "add(r,a,b,T) add(r,a,T) add(a,b,T) add(a,T), the same four on rint<K>",
@@ -475,7 +494,7 @@ NAT_FORMS = {
     "mulo": "a*T T*a a*=T rint*T T*rint rint*=T",
     "divf": "div(q,T&,a,T) div_q(q,a,T) div_r(T&,a,T) div(a,T&,a,T)",
     "saddf": "add(rint,rint,T) add(rint,T) add(r,rint,rint,T) add(r,rint,T) and the four sub forms, T of any sign",
-    "sremo": "div_r(rint,rint,rint) rint%rint rint%=rint with a divisor of any sign",
+    "sremo": "div_r(rint,rint,rint) rint%rint rint%=rint, divisor b > 1 (the precondition rdiv.h asserts; read from the source)",
     "divo": "a/T a/=T", "modo": "a%T a%=T", "sdivo": "div_q(rint,rint,T) rint/T rint/=T",
     "cmp": "cmp(a,T) and == != < <= > >= in both operand orders, for ruint<K> and rint<K>",
     "bit": "a|T a|=T a^T a^=T a&T a&=T rint^=T rint&=T",
@@ -912,7 +931,7 @@ def gen_args(rng, K, gen, spec):
             a = h
         return [a, b]
     if gen == "sdivr":
-        b = max(g_divisor(rng, K) % h, 2)
+        b = max(g_divisor(rng, K) % h, DIV_R_MIN[0] + 1)         # b > 1: documented precondition of div_r(rint)
         a = g_dividend_for(rng, K, b, top=h)
         if rng.chance(1, 2):
             a = (-a) % Bk
@@ -1007,8 +1026,6 @@ def klass_of(v, spec, K, a):
         return "K=6,double" if K == 6 else "K=%d" % K
     if v.startswith("nat.saddf."):
         return "K>=7,word<0" if K >= 7 and a[1] < 0 else "K=%d" % K
-    if v.startswith("nat.sremo."):
-        return "divisor<0" if sval(a[1] % (1 << (1 << K)), K) < 0 else "K=%d" % K
     if v == "nat.ctor.i32" or v == "nat.ctor.i64" or v == "nat.ctor.ll":
         return "most-negative" if a[1] == NTYPES[v.split(".")[2]][1] else "K=%d" % K
     if v.startswith("shl.u8") or v.startswith("shr.u8"):
@@ -1260,14 +1277,14 @@ def native_values(ty, op):
         neg = [-1, lo + 1, -2, -3, -(hi // 2), -10]
         if op == "ctor" and ty != "dbl":
             neg.append(lo)                               # the most negative value of the type
-        if op in ("addo", "subo", "mulo", "divo", "sdivo", "cmp", "ctor", "saddf", "sremo"):
+        if op in ("addo", "subo", "mulo", "divo", "sdivo", "cmp", "ctor", "saddf"):
             vals = [vals[0], neg[0], vals[1], neg[1]] + vals[2:] + neg[2:]
     if op in ("divf", "modo"):
         vals = [x for x in vals if x > 0]
     if op in ("divo", "sdivo"):
         vals = [x for x in vals if x != 0]
     if op == "sremo":
-        vals = [x for x in vals if abs(x) > 1]
+        vals = [x for x in vals if x > DIV_R_MIN[0]]     # documented domain of div_r(rint): b > 1 (negative / 0 / 1 divisors are not generated)
     return vals
 
 
@@ -1389,7 +1406,7 @@ def model_args(v, K, a):
         if op == "expw":
             return [bits] + list(a)
         if op == "sremo":
-            return [a[0], abs(sval(a[1] % (1 << (1 << K)), K))]      # the repaired code divides by |rint<K>(c)|
+            return [a[0], a[1] % (1 << (1 << K))]
         return list(a[:2])
     if v == "nat.consts":
         return [SRC_CONST.get("thirtyonepointfive", 0)]
@@ -1569,6 +1586,8 @@ def main(tier, replay=None):
     _t0 = _time.time()
     tm = {}
     rng = vf.Rng(spread_seed(chk.seed))
+    DIV_R_MIN[0], how = div_r_lower_bound()
+    chk.cov["div_r_rint_documented_domain"] = "b > %d (%s); divisors outside it are not generated and not checked" % (DIV_R_MIN[0], how)
     thr = source_threshold()
     chk.cov["trusted_base"] = [
         "Coq 8.16.1 kernel + vm_compute (no native_compute)",
